@@ -74,6 +74,8 @@ def build_case(cap, margs, info_by_style, g, dm, ann, variant, style, lay, tier,
     '''One case record for LFRicBuiltins.tla, or raises Unsupported.'''
     info, actual, alg = info_by_style[style]
     label = label or cap
+    if "doc" not in g:
+        raise Unsupported("definition in the user guide not understood: " + g["error"])
     text, iname, kern = G.make_psy(info, dm, ann, variant)
     it = G.itemise(text, iname)
     undf = G.LAYOUT_UNDF[lay]
@@ -330,7 +332,10 @@ def signature_disagreements(guide, table):
 def run(tier):
     core.setup_psyclone_env()
     out = core.Outcome("C20", tier, "model_checking", matchers=MATCHERS)
-    guide = D.parse_guide()
+    try:
+        guide = D.parse_guide()
+    except D.DocError as err:
+        raise core.MachineryError("user guide: %s" % err)
     table = G.builtin_table()
     only = os.environ.get("PV_C20_ONLY")       # development aid: a,b,c = these built-ins only
     if only:
@@ -361,6 +366,7 @@ def run(tier):
                       "built-in of BUILTIN_MAP has no definition in the user guide")
     cases = [b["case"] for b in built]
     meta = {b["case"]["id"]: b["meta"] for b in built}
+    tlc_case = {c["id"]: c for c in cases}
     if len(meta) != len(cases):
         raise core.MachineryError("case ids are not unique")
     # cases with identical content (e.g. reprod on/off for a built-in without
@@ -404,9 +410,12 @@ def run(tier):
             by_clause.setdefault(rec["v"], []).append(rec)
         for clause, rs in sorted(by_clause.items()):
             if nprinted < 40:
-                print(verdict_line(rs[0]) + " (%d failing inputs)" % len(rs))
+                print(verdict_line(rs[0]) + " definition=%r (%d failing inputs)"
+                      % (" / ".join(m["doc_text"]), len(rs)))
                 nprinted += 1
-            case = {"id": cid, **m}
+            case = {"id": cid, **m, "tlc_case": tlc_case[cid],
+                    "replay": "PV_CASES=<file holding [tlc_case]> tlc -config "
+                              "spec/LFRicBuiltins_replay.cfg spec/LFRicBuiltins.tla"}
             detail = {"n_failing_inputs": len(rs), "first": verdict_line(rs[0]),
                       "witnesses": [r["w"] for r in rs[:3]]}
             out.violation(case, clause, detail)
